@@ -59,6 +59,7 @@ def _poly_stream(ctx, n):
                         continue
                     nn = len(c["xs"])
                     c["mode"] = mode
+                    c.pop("repeat", None)
                     if mode == "plot_fit":
                         c["xrange"] = None          # Plot.fit forwards `xrange` to the drawn curve too and fails (reported)
                     c["yerr"] = None if ypat == "none" else (rng.randrange(1, 17) / 8.0 if ypat == "common"
@@ -97,8 +98,14 @@ def correspondence(ctx):
     polys = [c for c in corpus if c["kind"] == "poly"] + _poly_stream(ctx, ctx.n(95, 1000))
     curves = [c for c in corpus if c["kind"] == "curve"] + _curve_stream(ctx, ctx.n(40, 500))
     pterms, cterms, pidx, cidx = [], [], [], []
-    for c in polys:
-        obs = fc.run_case(c)
+    # large |x| and repeated-measurement points (53-bit uncertainties): oracle only, the exact solver on such rationals
+    # is slow in vm_compute
+    polys = [c for c in polys if not c.get("large_x") and not c.get("repeat")]
+    for c0 in polys:
+        obs = fc.run_case(c0)
+        c = obs.get("eff_case", c0)
+        if c0.get("repeat"):
+            res.count("repeated-measurement points")
         res.evaluations += 1
         res.count("poly:{}:deg{}".format(c["model"], c["deg"]))
         res.count("mode:" + c["mode"])
@@ -115,8 +122,11 @@ def correspondence(ctx):
         pterms.append(fc.coq_poly_case(c, obs))
         pidx.append(c)
     skipped = 0
-    for c in curves:
-        obs = fc.run_case(c)
+    for c0 in curves:
+        obs = fc.run_case(c0)
+        c = obs.get("eff_case", c0)
+        if c0.get("repeat"):
+            res.count("repeated-measurement points" + (" (x too)" if c0["repeat"].get("x") else ""))
         if obs.get("exn_type") == "RuntimeError":
             skipped += 1          # the optimiser (an oracle) did not converge
             continue
@@ -157,6 +167,8 @@ def correspondence(ctx):
                 break
             if k > 0:
                 res.nontrivial.add(core.canonical_key("h", [h, k]))
+            if cur.get("large_x"):
+                continue
             if cur["kind"] == "poly":
                 pterms.append(fc.coq_poly_case(cur, obs))
                 pidx.append(h)
@@ -207,8 +219,11 @@ def correspondence(ctx):
 def check_poly_oracle(case, obs=None):
     """exact weighted least squares over the points with low <= x < high; parameters highest power first"""
     obs = obs or fc.run_case(case)
+    case = obs.get("eff_case", case)
     if case.get("malformed") in ("lo>hi", "badlen", "nonreal"):
         return None if obs["exn"] is not None else "a fit request with an invalid x-range ({}) was accepted".format(case["malformed"])
+    if fc.numerically_lost(case, obs):
+        return None
     if obs["exn"] is not None:
         if case.get("malformed"):
             return None
@@ -245,6 +260,7 @@ def chi2_ref(model, params, xs, ys, ss):
 
 def check_curve_oracle(case, obs=None):
     obs = obs or fc.run_case(case)
+    case = obs.get("eff_case", case)
     if case.get("malformed") in ("lo>hi", "badlen", "nonreal"):
         return None if obs["exn"] is not None else "a fit request with an invalid x-range ({}) was accepted".format(case["malformed"])
     if obs.get("exn_type") == "RuntimeError":
